@@ -30,7 +30,8 @@ def targets(prog):
 
 
 def check_pred(prog, pred, text=None, rules=None):
-    st, bucket, detail, info = common.run_and_compare(prog, pred, text, rules=rules)
+    st, bucket, detail, info = common.run_and_compare(prog, pred, text, rules=rules,
+                                                       refusal_is_failure=True)
     return st, bucket, detail, info
 
 
